@@ -4,7 +4,7 @@ import pvlib
 from pvlib import run_tlc, run_cases, payloads
 
 
-def run(maxp=3, maxq=2):
+def run(maxp=3, maxq=2, maxq_nh=2):
     res = run_tlc("MC_Map", cfg="MC_Map.cfg", defines={"MaxP": str(maxp), "MaxQ": str(maxq)}, timeout_s=900)
     if res.violation:
         raise pvlib.Broken("PanMap law violated in the model: " + res.violation)
@@ -31,6 +31,29 @@ def run(maxp=3, maxq=2):
               "out:[" + pairs(a) + ", " + pairs(c["b"]) + "]"]
         reqs.append({"id": str(len(reqs)), "src": src, "fuel": 200000, "deadline_ms": 5000})
         want.append(ev)
+    nscalar = len(reqs)
+    res2 = run_tlc("MC_MapNH", cfg="MC_MapNH.cfg", defines={"MaxP": str(maxp), "MaxQ": str(maxq_nh)}, timeout_s=900)
+    if res2.violation:
+        raise pvlib.Broken("PanMap (non-hashable keys) law violated in the model: " + res2.violation)
+    cases2 = payloads(res2, "CASE ")
+    if len(cases2) != res2.distinct:
+        raise pvlib.Broken(f"TLC printed {len(cases2)} cases for {res2.distinct} states")
+    key = lambda k: {1: "1", 2: "2", 3: "[1]", 4: "[2]"}[k]
+    lit2 = lambda ps: "%{" + ", ".join(f"{key(k)}: {v * 10}" for k, v in ps) + "}"
+    pairs2 = lambda ps: "[" + ", ".join(f"[{key(k)}, {v * 10}]" for k, v in ps) + "]"
+    for c in cases2:
+        p, q, a = c["p"], c["q"], c["a"]
+        src = (f"a := {lit2(p)}; b := {lit2(q)}; m := {pairs2(p)}.M\n"
+               f"say([a.items, a.keys, a.len, a[1], a[2], a[[1]], a[[2]], a.B])\n"
+               f"say([%{{**a, **b}}.items, %{{**b, **a}}.items, a.digest(b.items).items, a == b, b == a, a == {lit2(a)}])\n"
+               f"say([m.items, m.len, m[1], m[2], m[[1]], m[[2]]])\n"
+               f"say([a.items, b.items])")
+        ev = ["out:[" + ", ".join([pairs2(a), "[" + ", ".join(key(k) for k, _ in a) + "]", str(len(a))] + [val(x) for x in c["at"]] + [b(bool(a))]) + "]",
+              "out:[" + ", ".join([pairs2(c["ab"]), pairs2(c["ba"]), pairs2(c["ab"]), b(c["eq"]), b(c["eq"]), "true"]) + "]",
+              "out:[" + ", ".join([pairs2(c["arrm"]), str(len(c["arrm"]))] + [val(x) for x in c["arrmat"]]) + "]",
+              "out:[" + pairs2(a) + ", " + pairs2(c["b"]) + "]"]
+        reqs.append({"id": str(len(reqs)), "src": src, "fuel": 200000, "deadline_ms": 5000})
+        want.append(ev)
     out = run_cases(reqs, label="X map")
     bad = []
     for rq, ev in zip(reqs, want):
@@ -38,9 +61,12 @@ def run(maxp=3, maxq=2):
         if got != ev:
             k = next((i for i, (g, w) in enumerate(zip(got, ev)) if g != w), -1)
             bad.append({"src": rq["src"].splitlines()[0], "line": k + 1, "observed": got[k] if 0 <= k < len(got) else [got, out[rq["id"]]["end"]], "expected": ev[k] if k >= 0 else ev})
-    return {"model": "PanMap", "cases": len(reqs), "states": res.distinct, "mismatches": len(bad), "examples": bad[:8],
+    return {"model": "PanMap", "cases": len(reqs), "states": res.distinct + res2.distinct, "mismatches": len(bad), "examples": bad[:8],
             "rule": f"every pair of pair lists (keys 1..3, values 10/20, lengths <= {maxp} / {maxq}): the literal keeps the first occurrence of a key, keys / values / items in that order, len, B, "
                     "[] and at for every key (nil when absent), unpacking %{**a, **b} both ways and digest (the left operand wins, order = first occurrence), == both ways (sets of pairs, order-blind), "
                     "a map equals its own literal, A, @ over |k, v|, Arr#M, receivers unchanged; laws: distinct keys, Build idempotent, unpacking = writing the pairs out, merge with itself / the empty map, "
-                    "left operand wins per key, merge length bounds, == reflexive and symmetric and implies equal lookups, both merge orders have the same key set",
-            "deviations_kept": []}
+                    "left operand wins per key, merge length bounds, == reflexive and symmetric and implies equal lookups, both merge orders have the same key set"
+                    f"; second part ({len(reqs) - nscalar} programs): keys 1, 2 and the arrs [1], [2] (not hashable), lengths <= {maxp} / {maxq_nh}: every walk visits hashed pairs first, then the others; duplicates "
+                    "among arr keys are found with == in literals and unpackings; [] with arr keys; Arr#M",
+            "deviations_kept": ["Arr#M (object.NewPanMap) does not look for duplicates among non-hashable keys: [[[1], 7], [[1], 8]].M has len 2 and two keys [1]; the literal %{[1]: 7, [1]: 8} has one. "
+                                "Lookups answer the first pair either way."]}
